@@ -203,6 +203,12 @@ pub trait WriteableGraph {
     fn get_or_create_label_id(&mut self, name: &str) -> Result<LabelId>;
     fn get_or_create_rel_type_id(&mut self, name: &str) -> Result<RelTypeId>;
 
+    /// Id of a label that exists by now, including one this transaction interned after the
+    /// statement's snapshot was taken. The default knows none.
+    fn known_label_id(&self, _name: &str) -> Option<LabelId> {
+        None
+    }
+
     fn staged_created_nodes_with_labels(&self) -> Vec<(InternalNodeId, Vec<String>)> {
         Vec::new()
     }
